@@ -6,7 +6,7 @@ import tempfile
 from hypothesis import strategies as st
 
 from vlib import harness, gen_iso, codecs_, refcodec, refvbs, mutate
-from vlib.harness import where
+from vlib.harness import where, exc_sig
 from vlib.strat import uniform
 from props import c09
 from cardutil import iso8583, mciipm
@@ -258,8 +258,11 @@ def check(data, blocked, codec, config, default_cfg):
 
 
 def _check(data, blocked, codec, entries, tail, kw, src):
-    raw_reader = mciipm.IpmReader(src, **kw)
     form = '1014' if blocked else 'vbs'
+    try:
+        raw_reader = mciipm.IpmReader(src, **kw)
+    except Exception as ex:  # noqa - opening a reader delivers nothing; the records before the fault are still due
+        return exc_sig('reader-refuses-file', ex), f'{form}: IpmReader(...) raised {ex!r} before any record was read'
     # consumption style: one iterator, or a fresh `iter(reader)` before every record (as in: skip a header with next(), then a
     # for loop; or a loop left with break and resumed) - the reader is its own iterator, so both must behave alike
     style = len(data) % 3
